@@ -278,10 +278,19 @@ def check_W5(ctx, facts):
 
 def check(ctx):
     facts = ctx.facts('prod')
-    check_api(ctx, facts)
-    check_W3(ctx, facts)
+    # SEM (API level): the four public write paths interpreted end to end against every outcome of node selection, of the local
+    # write and of the two selected replicas (api_abs); subsumes W1, W3 and W5, which are evaluated only when a construct is not modelled
+    import api_abs
+    api_sem = api_abs.check_api(ctx, facts, 'C06.SEM')
+    if not api_sem:
+        check_api(ctx, facts)
+        check_W3(ctx, facts)
+    else:
+        import write_abs
+        write_abs.check_counting(ctx, facts, 'C06.SEM')      # (the finer 16-outcome table of the counting function, when it can be found)
     check_W4(ctx, facts)
-    check_W5(ctx, facts)
+    if not api_sem:
+        check_W5(ctx, facts)
     # W7: the selector answers from the CURRENT membership (C15.N1/N2 re-evaluated here: nodes_selector.rs is one of C06's anchors)
     import c15
     n0 = len(ctx.obs)
